@@ -261,6 +261,7 @@ def check(ctx, R):
 
     pairs = 0
     equal = 0
+    summary_equal = 0
     for k in sorted(set(st) | set(at)):
         sf, af = st.get(k), at.get(k)
         if sf is None:
@@ -281,8 +282,19 @@ def check(ctx, R):
             equal += 1
             R.ok("TWIN-equal", k, "normalised ASTs equal (%d nodes)" % sum(1 for _ in ast.walk(ns)), sf.loc())
         else:
-            d = first_diff(ns, na)
-            R.fail("TWIN-equal", k, "sync and async bodies differ after normalisation at %s" % d, "%s / %s" % (sf.loc(), af.loc()))
+            # fallback: effect summaries (robust against one-sided renames, temporaries, logging, statement layout)
+            from ..summary import summary, diff_summaries
+            defaults_equal = ast.dump(ns.args) == ast.dump(na.args)
+            try:
+                sd = diff_summaries(summary(ctx, sf), summary(ctx, af)) if defaults_equal else "signatures/defaults differ"
+            except RecursionError:
+                sd = "summary not computable"
+            if sd is None:
+                summary_equal += 1
+                R.ok("TWIN-summary", k, "bodies differ textually (%s) but their effect summaries agree: same calls with the same argument terms, stores, returns, yields and raises under the same conditions and in the same dominance order" % first_diff(ns, na), sf.loc())
+            else:
+                d = first_diff(ns, na)
+                R.fail("TWIN-equal", k, "sync and async bodies differ after normalisation at %s; effect summaries differ too: %s" % (d, sd), "%s / %s" % (sf.loc(), af.loc()))
     # class-level: same methods per class pair handled above; class bases / module constants
     for aname, sname in CLASS_MAP.items():
         ac, sc = amod.classes.get(aname), smod.classes.get(sname)
@@ -294,6 +306,7 @@ def check(ctx, R):
     R.extra["programs"] = pairs
     R.extra["disagreements_checked"] = pairs
     R.extra["pairs_equal"] = equal
+    R.extra["pairs_summary_equal"] = summary_equal
 
     # -- TCP transports: contract table ----------------------------------------------------
     _tcp_contract(ctx, R)
